@@ -55,8 +55,14 @@ package datamodeldiagram
 //@   assert @mapupdate:map[string]datamodeldiagram.RelationshipParam [one-more-line-per-reference] (in(mapkey, maptarget) ==> stored.Count == maptarget[mapkey].Count + 1 && stored.Entity == maptarget[mapkey].Entity && stored.Relationship == maptarget[mapkey].Relationship) && (!in(mapkey, maptarget) ==> stored.Count == 1 && stored.Entity == mapkey)
 
 // The view: every type that is looked up is drawn by the drawer of its kind, with its own name and definition.
+//@ spec appPart(name string) string = ite(contains(name, "."), substr(name, 0, indexOf(name, ".")), name)
 //@ func (*DataModelView).GenerateDataView
 //@   requires v != nil && v.Symbols != nil && v.StringBuilder != nil && dataParam != nil
+// A diagram asked for one application draws only types whose application part is that application's name.
+//@   assert @call:datamodeldiagram.(*DataModelView).DrawRelation [only-types-of-the-selected-application] dataParam.Epname ==> appPart(entityName) == appName
+//@   assert @call:datamodeldiagram.(*DataModelView).DrawTuple [only-types-of-the-selected-application] dataParam.Epname ==> appPart(entityName) == appName
+//@   assert @call:datamodeldiagram.(*DataModelView).DrawPrimitive [only-types-of-the-selected-application] dataParam.Epname ==> appPart(entityName) == appName
+//@   assert @call:datamodeldiagram.(*DataModelView).DrawEnum [only-types-of-the-selected-application] dataParam.Epname ==> appPart(entityName) == appName
 //@   assert @call:datamodeldiagram.(*DataModelView).DrawRelation [draws-own-table] arg1.EntityName == entityName && arg2 == entityType.GetRelation() && arg2 != nil
 //@   assert @call:datamodeldiagram.(*DataModelView).DrawTuple [draws-own-tuple] arg1.EntityName == entityName && arg2 == entityType.GetTuple() && arg2 != nil
 //@   assert @call:datamodeldiagram.(*DataModelView).DrawEnum [draws-own-enum] arg1 == entityName && arg2 == entityType.GetEnum() && arg2 != nil
